@@ -37,3 +37,15 @@ Print Assumptions event_step_sys.
 Theorem cap_b_sound : forall cf s, CapacityRun.cap_b cf s = true -> Capacity.J cf s /\ SysCap.Sysq cf s.
 Proof. exact CapacityRun.cap_b_sound. Qed.
 Print Assumptions cap_b_sound.
+
+(* ---- T2, second sentence of C06 (function level, engine model stage 1): an external arrival is rejected exactly when its node or the
+   system is full at that instant ---- *)
+From CiwV.Inv Require Import Admit.
+Theorem rejected_iff_full : forall cf j x s s' nd nc, Engine.release_individual cf j x s = Ok (tt, s') ->
+  Engine.nthZ (nodes s) (j - 1) = Some nd -> Engine.nthZ (cf_nodes cf) (j - 1) = Some nc -> (forall r, In r (log s) -> r_type r <> 4%Z) ->
+  ((exists r, In r (log s') /\ r_type r = 4%Z /\ r_id r = i_id x) <-> orb (Admit.node_full nc nd) (Admit.system_full cf s) = true).
+Proof. exact Admit.rejected_iff_full. Qed.
+Print Assumptions rejected_iff_full.
+(* the full case analysis: rejected (at the exit at once, record of type 4 showing the population seen, no node changes), baulked by its own
+   decision (type 3, u < p for the population seen), or admitted (counted as accepted and handed to the node's accept) *)
+(* proved in Inv/Admit.v as release_individual_admission; rejected_iff_full is its corollary *)
